@@ -25,7 +25,10 @@
 #include "iwexfile.h"
 #include "iwp.h"
 #include "iwlog.h"
+#include "iowow.h"
+#include "iwutils.h"
 #include "hcommon.h"
+#include <time.h>
 #include <signal.h>
 #include <dirent.h>
 #include <setjmp.h>
@@ -124,6 +127,9 @@ int main(int argc, char **argv) {
   path = argv[1];
   snprintf(rawpath, sizeof(rawpath), "%s.raw", path);
   iwlog_init();
+  // iw_init seeds the generator behind IWFS_OTMP names with the millisecond clock: harnesses started together would share names
+  iw_init();
+  iwu_rand_seed((uint32_t) getpid() * 2654435761u ^ (uint32_t) time(0));
   struct sigaction sa;
   memset(&sa, 0, sizeof(sa));
   sa.sa_handler = onsig;
